@@ -297,6 +297,12 @@ def gen_chain(g, filters=0.0):
                 cur = [x for v in cur for x in chain_children(v) if keep(x)]
                 continue
             itext, ispec = gen_inner(r, r.choice(kids) if kids else None)
+            if r.random() < 0.3:
+                # the negation: members from which the inner steps reach nothing
+                text += '[?(!@' + itext + ')]'
+                spec.append((9, ispec))
+                cur = [x for v in cur for x in chain_children(v) if not inner_reach(ispec, [x])]
+                continue
             text += '[?(@' + itext + ')]'
             spec.append((7, ispec))
             cur = [x for v in cur for x in chain_children(v) if inner_reach(ispec, [x])]
@@ -430,7 +436,7 @@ class C01(EvalProp):
                 doc, text, spec, cur = gen_chain(g, filters=fl)
                 if cur or r.random() < 0.25:
                     break
-            has_filter = any(st[0] in (7, 8) for st in spec)      # C01_filter_retrieval: the text is Coq's fchain_path
+            has_filter = any(st[0] in (7, 8, 9) for st in spec)      # C01_filter_retrieval: the text is Coq's fchain_path
             nodollar = not has_filter and spec[0][0] != 4 and r.random() < 0.25
             if nodollar:
                 # C18_dollar_optional: the same path without its leading $ (a first dot name loses its dot, .* becomes *)
